@@ -769,7 +769,14 @@ fn gen_preseed(r: &mut Rng, lang: &str, mode: &Mode, world: &World) -> Vec<(Stri
     let contents = ["", "leftover from another tool\n", "// stale\npublic struct CodableVoid: Codable, Equatable {}\n"];
     let ext = lang_ext(lang);
     match mode {
-        Mode::File => v.push((format!("types.{ext}"), r.pick(&contents).to_string())),
+        Mode::File => {
+            if r.chance(1, 2) {
+                v.push((format!("types.{ext}"), r.pick(&contents).to_string()));
+            } else {
+                // the directory is there, the output file is not
+                v.push(("unrelated.txt".to_string(), "not ours\n".to_string()));
+            }
+        }
         Mode::Folder => {
             for c in &world.crates {
                 if r.chance(1, 2) {
